@@ -17,8 +17,11 @@
 EXTENDS MpqMap, Sequences, Json, IOUtils, TLC, TLCExt
 
 Rec == ndJsonDeserialize(IOEnv.TRACE)
-VARIABLE tl
-tvars == <<tl, vdisk, vsess, vopen, vdirty, vcap, vextra>>
+VARIABLES tl,
+          vreset,     \* index of the Reset event of the current trace (its `preds` = predictions of the code model)
+          voptok      \* model token key ("i:<name>", "o<k>") -> content token actually used by the driver
+tvars == <<tl, vdisk, vsess, vopen, vdirty, vcap, vextra, vreset, voptok>>
+Keep == UNCHANGED <<vreset, voptok>>
 
 Ev == Rec[tl]
 Is(k) == Ev.ev = k
@@ -26,47 +29,59 @@ Is(k) == Ev.ev = k
 T_Reset == /\ Is("Reset")
            /\ vdisk' = Ev.initial /\ vsess' = Ev.initial /\ vopen' = FALSE /\ vdirty' = FALSE
            /\ vcap' = Ev.hsize /\ vextra' = Ev.nspecial
+           /\ vreset' = tl /\ voptok' = Ev.toks
 
-T_Open  == Is("Open") /\ Ev.res = "ok" /\ Open
+T_Open  == Is("Open") /\ Ev.res = "ok" /\ Open /\ Keep
 
-T_Add   == /\ Is("Add")
+T_Add   == /\ Is("Add") /\ UNCHANGED vreset
+           /\ voptok' = [x \in DOMAIN voptok \cup {Ev.okey} |-> IF x = Ev.okey THEN Ev.tok ELSE voptok[x]]
            /\ \/ Ev.res = "ok" /\ Add(Ev.n, Ev.tok, Ev.rep)
               \/ Ev.res = "exists" /\ AddFailExists(Ev.n, Ev.rep)
               \/ Ev.res \notin {"ok", "exists", "hang", "panic", "notfound"} /\ AddFailFull(Ev.n)
 
-T_Remove == /\ Is("Remove")
+T_Remove == /\ Is("Remove") /\ Keep
             /\ \/ Ev.res = "ok" /\ Remove(Ev.n)
                \/ Ev.res = "notfound" /\ RemoveFail(Ev.n)
 
-T_Rename == /\ Is("Rename")
+T_Rename == /\ Is("Rename") /\ Keep
             /\ \/ Ev.res = "ok" /\ Rename(Ev.n, Ev.m)
                \/ Ev.res \in {"notfound", "exists"} /\ RenameFail(Ev.n, Ev.m)
 
-T_Flush   == Is("Flush") /\ Ev.res = "ok" /\ Flush
-T_Compact == Is("Compact") /\ Ev.res = "ok" /\ Compact(Ev.hsize, Ev.nspecial)
-T_Close   == Is("Close") /\ Ev.res = "ok" /\ Close
+T_Flush   == Is("Flush") /\ Ev.res = "ok" /\ Flush /\ Keep
+T_Compact == Is("Compact") /\ Ev.res = "ok" /\ Compact(Ev.hsize, Ev.nspecial) /\ Keep
+T_Close   == Is("Close") /\ Ev.res = "ok" /\ Close /\ Keep
 \* a fresh Archive::open of the file after the session was closed must succeed
-T_Check   == Is("Check") /\ Ev.res = "ok" /\ ~vopen /\ UNCHANGED mvars
+T_Check   == Is("Check") /\ Ev.res = "ok" /\ ~vopen /\ UNCHANGED mvars /\ Keep
 
 ReadWhy(e) == IF vdisk[e.n] = None THEN "ghost"                    \* absent name is readable
               ELSE IF e.res = "notfound" THEN "lost"                \* present name not found
               ELSE IF e.res = "ok" THEN "corrupt"                   \* other bytes than were stored
               ELSE "unreadable"                                     \* present name, read fails
-T_Read == /\ Is("Read") /\ ~vopen
+\* D: does the observation equal what the model of the code (MpqHashTable, implementation machine,
+\* run by Gen_MpqHashTable) predicted for this name at this checkpoint?
+PredFor(e) == LET ps == Rec[vreset].preds IN IF e.ck <= Len(ps) THEN ps[e.ck] ELSE [kind |-> "none"]
+ModelSays(e) == LET p == PredFor(e) IN
+    IF p.kind # "map" THEN "nopred"
+    ELSE LET v == p.map[e.n] IN
+         IF v = "none" THEN (IF e.res = "notfound" THEN "asmodel" ELSE "notmodel")
+         ELSE IF v = "corrupt" THEN (IF e.res # "notfound" THEN "asmodel" ELSE "notmodel")
+         ELSE IF e.res = "ok" /\ v \in DOMAIN voptok /\ voptok[v] = e.tok THEN "asmodel" ELSE "notmodel"
+T_Read == /\ Is("Read") /\ ~vopen /\ Keep
           /\ IF ReadIs(Ev.n, Ev.res, Ev.tok)
-             THEN UNCHANGED mvars
-             ELSE /\ PrintT(<<"BAD", tl, ReadWhy(Ev)>>)
+             THEN /\ UNCHANGED mvars
+                  /\ IF ModelSays(Ev) = "notmodel" THEN PrintT(<<"DRIFT", tl, "pred">>) ELSE TRUE
+             ELSE /\ PrintT(<<"BAD", tl, ReadWhy(Ev), ModelSays(Ev)>>)
                   /\ vdisk' = [vdisk EXCEPT ![Ev.n] = IF Ev.res = "ok" THEN Ev.tok ELSE None]
                   /\ vsess' = vdisk'
                   /\ UNCHANGED <<vopen, vdirty, vcap, vextra>>
 
 \* D: list() after reopen shows exactly the present names (plus special files, logged with "?")
 Listed(e) == {e.names[j] : j \in 1..Len(e.names)}
-T_List == /\ Is("List") /\ ~vopen /\ UNCHANGED mvars
+T_List == /\ Is("List") /\ ~vopen /\ UNCHANGED mvars /\ Keep
           /\ IF Ev.res = "ok" /\ Present(vdisk) = {x \in Listed(Ev) : x \in DOMAIN vdisk}
              THEN TRUE ELSE PrintT(<<"DRIFT", tl, "list">>)
 
-TInit == tl = 1 /\ MapInit(<<>>, 0, 0)
+TInit == tl = 1 /\ MapInit(<<>>, 0, 0) /\ vreset = 0 /\ voptok = <<>>
 TNext == /\ tl <= Len(Rec)
          /\ tl' = tl + 1
          /\ \/ T_Reset \/ T_Open \/ T_Add \/ T_Remove \/ T_Rename \/ T_Flush \/ T_Compact \/ T_Close
